@@ -53,6 +53,9 @@ HISTORIES = {
     "one": ({"carrier": "h1"}, [("data", 0, GET)], {"http": RESPOND}, {}),
     "two": ({"carrier": "h1"}, [("data", 0, GET), ("data", 0, GET2)], {"http": RESPOND}, {}),
     "pipe": ({"carrier": "h1"}, [("data", 0, GET + GET2)], {"http": RESPOND}, {}),
+    "one_partial": ({"carrier": "h1"}, [("data", 0, GET + GET2[:9])], {"http": RESPOND}, {}),
+    "one_then_partial": ({"carrier": "h1"}, [("data", 0, GET), ("data", 0, GET2[:9])], {"http": RESPOND}, {}),
+    "gated_partial": ({"carrier": "h1"}, [("data", 0, GET + GET2[:9])], {"http": GATED}, {}),
     "gated": ({"carrier": "h1"}, [("data", 0, GET)], {"http": GATED}, {}),
     "pipe_gated": ({"carrier": "h1"}, [("data", 0, GET + GET2)], {"http:/a": GATED, "http:/b": RESPOND}, {}),
     "pipe_nosend": ({"carrier": "h1"}, [("data", 0, GET + GET2)], {"http:/a": NOSEND, "http:/b": RESPOND}, {}),
